@@ -39,6 +39,9 @@ from ofxtools.models.i18n import CURRENCY, ORIGCURRENCY, Origcurrency, CURRENCY_
 class CLOSING(Aggregate, Origcurrency):
     """OFX section 11.5.2"""
 
+    # Aggregate.optionalMutexes shadows that of the Origcurrency mixin
+    optionalMutexes = [["currency", "origcurrency"]]
+
     fitid = String(255, required=True)
     dtopen = DateTime()
     dtclose = DateTime(required=True)
